@@ -13,10 +13,20 @@
      every operation of every history on the root directory of a FAT12/16 volume, accepted or
      refused, lies inside [start, start+size) — for every size `Create` accepts, every start and
      every prior device content; for FAT32 the writes of `Create`.
-  What is NOT a theorem (partial): that the ext4 allocator and the iso9660/squashfs layout code
-  only ever produce in-range block numbers, and FAT operations inside cluster-chain directories
-  (subdirectories, the FAT32 root). Those are monitored on the real code by the `ranges` engine
-  (every WriteAt range-checked, guard bytes compared) for all six filesystems.
+   * ext4 clause (fifth part of this file): for every parameter set `Create` accepts, with the two layout
+     predicates `Fits` and `BackupsFit` (not checked by `Create`: the recorded findings are their negations),
+     every structure of the mkfs layout, every block `allocateExtents` can hand out and every WriteAt of every
+     history of the volume machine (Model/RangesExt4.lean) lies inside [start, start+size); every WriteAt of
+     `File.Write` lies inside one extent of the file.
+   * SubStorage clause: a nest of `backend.Sub` windows is a pure translation; in-bounds calls through nested
+     windows stay inside every window; a call that leaves the window is passed on whole (nothing is enforced).
+   * regenerated facts: ext4 / iso9660 / squashfs go through `backend.Sub`; every ReadAt / WriteAt of the FAT
+     packages adds the filesystem start exactly once.
+  What is NOT a theorem (partial): the iso9660 writers beyond the plain configuration, squashfs images with
+  extended attributes, FAT operations inside cluster-chain directories (subdirectories, the FAT32 root); for
+  ext4 the WriteAts an operation issues are the machine's definition, tied to the real code by classifying
+  every WriteAt of real histories (`ranges.ext4`), not a line-by-line mirror.  Those are monitored on the real
+  code by the `ranges` engine (every WriteAt range-checked, guard bytes compared) for all six filesystems.
 -/
 import DiskfsModel.Model.Ranges
 import DiskfsModel.Proofs.PartIO
